@@ -1,0 +1,85 @@
+//go:build verif
+
+package gnosis
+
+import (
+	"context"
+
+	"github.com/jackc/pgx/v4/pgxpool"
+
+	obskeyper "github.com/shutter-network/rolling-shutter/rolling-shutter/chainobserver/db/keyper"
+	"github.com/shutter-network/rolling-shutter/rolling-shutter/keyper/epochkghandler"
+	"github.com/shutter-network/rolling-shutter/rolling-shutter/medley/beaconapiclient"
+	"github.com/shutter-network/rolling-shutter/rolling-shutter/medley/broker"
+	"github.com/shutter-network/rolling-shutter/rolling-shutter/medley/identitypreimage"
+	"github.com/shutter-network/rolling-shutter/rolling-shutter/p2p"
+)
+
+// Accessors for the verification harness (family gnosisslot, property C19). Add-only: nothing
+// here changes behaviour, the file does not exist for the compiler without the verif tag.
+
+// VerifGnosisSlotNewKeyper builds a Keyper the way Start does for the fields the slot
+// processing uses (config, database pool, beacon API client, trigger channel,
+// latestTriggeredSlot = nil) without starting any service.
+func VerifGnosisSlotNewKeyper(
+	config *Config,
+	dbpool *pgxpool.Pool,
+	beaconAPIClient *beaconapiclient.Client,
+	trigger chan *broker.Event[*epochkghandler.DecryptionTrigger],
+) *Keyper {
+	return &Keyper{
+		config:                   config,
+		dbpool:                   dbpool,
+		beaconAPIClient:          beaconAPIClient,
+		decryptionTriggerChannel: trigger,
+		latestTriggeredSlot:      nil,
+		syncMonitor:              &SyncMonitor{},
+	}
+}
+
+// VerifGnosisSlotProcessNewSlot is what processInputs calls for a slot tick.
+func (kpr *Keyper) VerifGnosisSlotProcessNewSlot(ctx context.Context, slot uint64) error {
+	return kpr.maybeTriggerDecryption(ctx, slot)
+}
+
+func (kpr *Keyper) VerifGnosisSlotTriggerDecryption(
+	ctx context.Context, slot uint64, nextBlock int64, keyperSet *obskeyper.KeyperSet,
+) error {
+	return kpr.triggerDecryption(ctx, slot, nextBlock, keyperSet)
+}
+
+func (kpr *Keyper) VerifGnosisSlotGetDecryptionIdentityPreimages(
+	ctx context.Context, slot uint64, eon int64, txPointer int64,
+) ([]identitypreimage.IdentityPreimage, error) {
+	return kpr.getDecryptionIdentityPreimages(ctx, slot, eon, txPointer)
+}
+
+func VerifGnosisSlotGetTxPointer(ctx context.Context, db *pgxpool.Pool, eon int64, maxTxPointerAge int64) (int64, error) {
+	return getTxPointer(ctx, db, eon, maxTxPointerAge)
+}
+
+// VerifGnosisSlotLatestTriggeredSlot returns the in-memory latestTriggeredSlot (nil = none).
+func (kpr *Keyper) VerifGnosisSlotLatestTriggeredSlot() *uint64 {
+	if kpr.latestTriggeredSlot == nil {
+		return nil
+	}
+	v := *kpr.latestTriggeredSlot
+	return &v
+}
+
+// VerifGnosisSlotSetLatestTriggeredSlot restores the in-memory latestTriggeredSlot (used when
+// the harness returns to an earlier node of a behaviour tree).
+func (kpr *Keyper) VerifGnosisSlotSetLatestTriggeredSlot(v *uint64) {
+	if v == nil {
+		kpr.latestTriggeredSlot = nil
+		return
+	}
+	c := *v
+	kpr.latestTriggeredSlot = &c
+}
+
+// VerifGnosisSlotHandlers returns the two gnosis message handlers exactly as Start registers
+// them (their dbpool field is unexported).
+func VerifGnosisSlotHandlers(dbpool *pgxpool.Pool) (keyShares p2p.MessageHandler, keys p2p.MessageHandler) {
+	return &DecryptionKeySharesHandler{dbpool}, &DecryptionKeysHandler{dbpool}
+}
